@@ -408,14 +408,14 @@ def display_result(r, out, brackets_for_frac=False, newline=True, unit_format_fn
             print(unit_format_fn(r.qv), end="", file=out)
         if isinstance(r.mag, frac):
             print("    ("
-                    + str(precisionify_float(float(r.mag))) + " "
+                    + approximate_frac(r.mag) + " "
                     + unit_format_fn(r.qv) + ")",
                   end="",
                   file=out)
         print(file=out, **newline_args)
     elif isinstance(r, frac):
         print(prettify_frac(r),
-              "    (" + str(precisionify_float(float(r))) + ")",
+              "    (" + approximate_frac(r) + ")",
               file=out,
               **newline_args)
     elif isinstance(r, float):
@@ -456,6 +456,15 @@ def stringify_result(r, brackets_for_frac=False):
     elif isinstance(r, Instant):
         return "#" + str(r) + "#"
     return str(r)
+
+def approximate_frac(f):
+    try:
+        return str(precisionify_float(float(f)))
+    except OverflowError:
+        # Too large for a float, fall back to integer arithmetic.
+        whole = abs(f.numerator) // f.denominator
+        sign = "-" if f < 0 else ""
+        return "~" + sign + "1e" + str(len(str(whole)) - 1)
 
 def precisionify_float(f):
     fstring = "{:." + str(ka.config.get(ConfigProperties.PRECISION)) + "g}"
